@@ -138,6 +138,9 @@ def _aspects(P, m, name):
             if 'dformat' in {x.id for x in ast.walk(n.test) if isinstance(x, ast.Name)}:
                 guarded = True
     out['quantize_iff_dformat'] = guarded
+    # quantisation applies once, to the number of the cell (summed over lots), not to the parts it is summed from
+    out['quantize_once_per_cell'] = not any(isinstance(n, (ast.For, ast.While, ast.ListComp, ast.GeneratorExp)) and any(x is q for q in qs for x in ast.walk(n))
+                                            for n in ast.walk(call.node))
     out['index_param'] = 'self.index' in src
     return out
 
@@ -179,6 +182,9 @@ def rule_siblings(P) -> RuleResult:
         tmpl = (a.get('name_template') or '').replace(' ', '')
         if tmpl not in ("'{}({})'.format(name,currency)", "f'{name}({currency})'"):
             res.fail(f'{NU}:convert_col_{n}', 'siblings:name', f'columns must be named "name (CUR)"; template is {a.get("name_template")}')
+        if a.get('quantize_once_per_cell') is False:
+            res.fail(f'{NU}:{n}Converter', 'siblings:quantize-parts', f'{n}Converter quantizes inside a loop: the parts are rounded before '
+                     f'they are summed, so the cell is no longer the quantized number of units of the currency')
         if a.get('quantize_currency') != 'self.currency' or not a.get('quantize_iff_dformat'):
             res.fail(f'{NU}:{n}Converter', 'siblings:quantize', f'{n}Converter must quantize to its own currency exactly when a '
                      f'formatter is given')
@@ -236,4 +242,212 @@ def rule_identity(P) -> RuleResult:
         res.info('output description shape not recognised (not judged)')
     if len(res.findings) == n0:
         res.ok({'function': fi.fq, 'identity': 'name, datatype, index', 'rows': 'one per input row, converters in column order'})
+    return res
+
+
+# ----------------------------------------------------------------------
+# R-REDUCE (C12): f(inventory) is defined as f mapped over the positions of the inventory
+
+def rule_reduce(P) -> RuleResult:
+    from beancount.core import inventory as _inv, position as _pos
+    res = RuleResult('R-REDUCE')
+    reg = registry.get(P)
+    by = reg.funcs_by_name()
+    n = 0
+    for name in ('units', 'cost', 'value', 'convert'):
+        pos_f = [f for f in by.get(name, []) if f.intypes and f.intypes[0] is _pos.Position and f.impl is not None]
+        inv_f = [f for f in by.get(name, []) if f.intypes and f.intypes[0] is _inv.Inventory and f.impl is not None]
+        if not pos_f or not inv_f:
+            raise AnalysisError(f'anchor vanished: position / inventory overloads of {name}()')
+        pimpl, iimpl = pos_f[0].impl, inv_f[0].impl
+        # the position overload: return convert.X(pos, extra...)
+        prets = [x for x in ast.walk(pimpl.node) if isinstance(x, ast.Return) and x.value is not None]
+        irets = [x for x in ast.walk(iimpl.node) if isinstance(x, ast.Return) and x.value is not None]
+        if len(prets) != 1 or len(irets) != 1 or not isinstance(prets[0].value, ast.Call) or not isinstance(irets[0].value, ast.Call):
+            raise AnalysisError(f'{name}(): overload bodies not understood')
+        pc, ic = prets[0].value, irets[0].value
+        pfn = pimpl.module.dotted(pc.func)
+        p_off = 1 if (pos_f[0].pass_context or pos_f[0].pass_row) else 0
+        i_off = 1 if (inv_f[0].pass_context or inv_f[0].pass_row) else 0
+        pparam = pimpl.params[p_off]
+        iparam = iimpl.params[i_off]
+        pextra = [unparse(a) for a in pc.args[1:]]
+        construct = f'function:{inv_f[0].label}'
+        n += 1
+        ok = (isinstance(ic.func, ast.Attribute) and ic.func.attr == 'reduce' and unparse(ic.func.value) == iparam
+              and ic.args and iimpl.module.dotted(ic.args[0]) == pfn and [unparse(a) for a in ic.args[1:]] == pextra
+              and unparse(pc.args[0]) == pparam)
+        if ok:
+            res.ok({'function': name, 'position': f'{pfn}(pos, {", ".join(pextra)})', 'inventory': f'inv.reduce({pfn}, {", ".join(pextra)})'})
+        else:
+            res.fail(construct, 'reduce:definition',
+                     f'{name}(inventory) must be {name}(position) applied to every position of that very inventory - '
+                     f'`{iparam}.reduce({pfn.split(".")[-1]}, {", ".join(pextra)})` - so that it commutes with sum(); found '
+                     f'`{unparse(ic)}`', loc(iimpl))
+    return res
+
+
+# ----------------------------------------------------------------------
+# R-CALSIB (C18): date_trunc / date_part / quarter agree on how each calendar unit is cut
+
+def _unit_params(fi: FuncInfo):
+    """{unit: (date attribute, offset, modulus)} from `if field == 'unit': return <expr with (x.attr + k) % m or // m>`."""
+    out = {}
+    for n in ast.walk(fi.node):
+        if not isinstance(n, ast.If):
+            continue
+        units = re.findall(r"== '(\w+)'", unparse(n.test))
+        rets = [s for s in n.body if isinstance(s, ast.Return)]
+        if not units or not rets:
+            continue
+        p = _modparams(rets[0].value)
+        for u in units:
+            if p:
+                out[u] = p
+    return out
+
+
+def _modparams(expr):
+    for b in ast.walk(expr):
+        if isinstance(b, ast.BinOp) and isinstance(b.op, (ast.Mod, ast.FloorDiv)) and isinstance(b.right, ast.Constant) \
+                and isinstance(b.right.value, int):
+            left = b.left
+            off = 0
+            if isinstance(left, ast.BinOp) and isinstance(left.op, (ast.Add, ast.Sub)) and isinstance(left.right, ast.Constant):
+                off = left.right.value if isinstance(left.op, ast.Add) else -left.right.value
+                left = left.left
+            if isinstance(left, ast.Attribute) and isinstance(left.value, ast.Name):
+                return (left.attr, off, b.right.value)
+    return None
+
+
+import re  # noqa: E402
+
+
+def rule_calsib(P) -> RuleResult:
+    res = RuleResult('R-CALSIB')
+    m = P.module('beanquery.query_env')
+    fs = {}
+    for name in ('date_trunc', 'date_part', 'quarter'):
+        f = m.toplevel_funcs.get(name)
+        if not f:
+            raise AnalysisError(f'anchor vanished: query_env.{name}')
+        fs[name] = f[0] if name == 'quarter' else f[-1]
+    trunc = _unit_params(fs['date_trunc'])
+    part = _unit_params(fs['date_part'])
+    q = None
+    for r in ast.walk(fs['quarter'].node):
+        if isinstance(r, ast.Return):
+            q = _modparams(r.value)
+    if len(trunc) < 3 or len(part) < 3:
+        raise AnalysisError('calendar unit formulas of date_trunc / date_part not recognised')
+    for unit in sorted(set(trunc) & set(part)):
+        if trunc[unit] != part[unit]:
+            res.fail(f'function:date_part[{unit}]', f'calsib:{unit}',
+                     f"date_trunc('{unit}') cuts {trunc[unit][0]} as ({trunc[unit][0]} {trunc[unit][1]:+d}) mod {trunc[unit][2]} but "
+                     f"date_part('{unit}') numbers it as ({part[unit][0]} {part[unit][1]:+d}) div {part[unit][2]}: a date and the start of "
+                     f"its {unit} get different {unit} numbers at the boundary", loc(fs['date_part']))
+        else:
+            res.ok({'unit': unit, 'attribute': trunc[unit][0], 'offset': trunc[unit][1], 'period': trunc[unit][2]})
+    if q is not None and 'quarter' in part:
+        if q != part['quarter']:
+            res.fail('function:quarter', 'calsib:quarter-function', f"quarter() computes {q}, date_part('quarter') {part['quarter']}", loc(fs['quarter']))
+        else:
+            res.ok({'unit': 'quarter()', 'agrees_with': "date_part('quarter')"})
+    return res
+
+
+# ----------------------------------------------------------------------
+# R-DEFN (C18): functions that the statement defines by a Python primitive are that primitive
+
+DEFINITIONS = {
+    'upper': 'p0.upper()', 'lower': 'p0.lower()', 'length': 'len(p0)', 'substr': 'p0[p1:p2]',
+    'splitcomp': 'p0.split(p1)[p2]', 'joinstr': "','.join(p0)", 'subst': 're.sub(p0, p1, p2)',
+    'maxwidth': 'textwrap.shorten(p0, width=p1)', 'neg': '-p0', 'abs': 'abs(p0)', 'round': 'round(p0, p1)',
+    'year': 'p0.year', 'month': 'p0.month', 'day': 'p0.day', 'date_diff': '(p0 - p1).days',
+    'date_add': 'p0 + datetime.timedelta(days=p1)', 'yearmonth': 'datetime.date(p0.year, p0.month, 1)',
+    'number': 'p0.number', 'currency': 'p0.currency', 'commodity': 'p0.currency',
+    'root': 'account.root(p1, p0)', 'parent': 'account.parent(p0)', 'leaf': 'account.leaf(p0)',
+    'repr': 'repr(p0)', 'only': 'p1.get_currency_units(p0)', 'empty': 'p0.is_empty()',
+}
+
+
+def _dterm(e, env, module):
+    """A normal form of straight-line expressions: parameters by position, calls by resolved name."""
+    if isinstance(e, ast.Name):
+        return env.get(e.id, ('name', e.id))
+    if isinstance(e, ast.Constant):
+        return ('const', e.value)
+    if isinstance(e, ast.Attribute):
+        base = e.value
+        d = module.dotted(e) if not _rooted_in(e, env) else None
+        if d and not d.startswith('builtins.'):
+            return ('global', d)
+        return ('attr', _dterm(base, env, module), e.attr)
+    if isinstance(e, ast.BinOp):
+        return ('bin', type(e.op).__name__, _dterm(e.left, env, module), _dterm(e.right, env, module))
+    if isinstance(e, ast.UnaryOp):
+        return ('un', type(e.op).__name__, _dterm(e.operand, env, module))
+    if isinstance(e, ast.Subscript):
+        if isinstance(e.slice, ast.Slice):
+            return ('slice', _dterm(e.value, env, module), *[_dterm(x, env, module) if x is not None else None
+                                                           for x in (e.slice.lower, e.slice.upper, e.slice.step)])
+        return ('item', _dterm(e.value, env, module), _dterm(e.slice, env, module))
+    if isinstance(e, ast.Call):
+        args = tuple(_dterm(a, env, module) for a in e.args)
+        kws = tuple(sorted((k.arg, _dterm(k.value, env, module)) for k in e.keywords))
+        if isinstance(e.func, ast.Attribute) and (_rooted_in(e.func, env) or isinstance(e.func.value, ast.Constant)):
+            return ('meth', _dterm(e.func.value, env, module), e.func.attr, args, kws)
+        d = module.dotted(e.func)
+        return ('call', (d or unparse(e.func)).replace('builtins.', ''), args, kws)
+    return ('expr', unparse(e))
+
+
+def _rooted_in(e, env):
+    while isinstance(e, (ast.Attribute, ast.Subscript, ast.Call)):
+        e = e.value if not isinstance(e, ast.Call) else e.func
+    return isinstance(e, ast.Name) and e.id in env or isinstance(e, (ast.BinOp,))
+
+
+def rule_defn(P) -> RuleResult:
+    res = RuleResult('R-DEFN')
+    reg = registry.get(P)
+    m = P.module('beanquery.query_env')
+    seen = set()
+    for f in reg.funcs:
+        if f.kind != 'function' or f.impl is None or f.name not in DEFINITIONS or (f.name, f.impl.fq) in seen:
+            continue
+        seen.add((f.name, f.impl.fq))
+        fi = f.impl
+        body = body_without_docstring(fi.node)
+        off = 1 if (f.pass_context or f.pass_row) else 0
+        params = fi.params[off:]
+        env = {p: ('p', i) for i, p in enumerate(params)}
+        # defaults make shorter overloads instances of the same definition
+        term = None
+        straight = True
+        for st in body:
+            if isinstance(st, ast.Assign) and len(st.targets) == 1 and isinstance(st.targets[0], ast.Name):
+                env[st.targets[0].id] = _dterm(st.value, env, fi.module)
+            elif isinstance(st, ast.Return) and st.value is not None:
+                term = _dterm(st.value, env, fi.module)
+                break
+            else:
+                straight = False
+                break
+        if not straight or term is None:
+            res.info(f'{f.name}: body is not a straight-line definition (not judged)')
+            continue
+        ref = ast.parse(DEFINITIONS[f.name], mode='eval').body
+        renv = {f'p{i}': ('p', i) for i in range(6)}
+        want = _dterm(ref, renv, m)
+        construct = f'function:{f.name}'
+        if term == want:
+            res.ok({'function': f.name, 'definition': DEFINITIONS[f.name]})
+        else:
+            shown = unparse(next(s.value for s in body if isinstance(s, ast.Return)))
+            res.fail(construct, 'defn:changed', f'{f.name}({", ".join(params)}) is defined as `{DEFINITIONS[f.name]}` '
+                     f'(p0, p1, ... = its arguments); the implementation computes `{shown}`', loc(fi))
+    if len(seen) < 15:
+        raise AnalysisError(f'only {len(seen)} definitional functions found')
     return res
